@@ -2,7 +2,8 @@
     Only statements, each closed by [exact <lemma>] or a short wrapper, with [Print Assumptions].
     Model: Model/Pipeline.v (IncrementalPipeline.sync / FullSyncPipeline.sync, DatasetSource,
     UnionDatasetSource, datasetSink, the dataset's batch write and change-feed read).
-    [mkVar EqFull FsReset] is the repaired variant, [mkVar EqLen FsKeep] the pinned tree. *)
+    [mkVar EqFull FsReset dm] (any in-batch duplicate rule dm) is the repaired variant,
+    [mkVar EqLen FsKeep DupStoredAndLocal] the pinned tree. *)
 From Coq Require Import List ZArith NArith Bool Arith Lia.
 From DH Require Import Model.Pipeline Proofs.PipelineProofs Check.C08Check Proofs.C08CheckProofs.
 Import ListNotations.
@@ -15,32 +16,32 @@ Import ListNotations.
     index - started on the empty hub: after every operation, for every member dataset, every
     entity whose sink version is not the one the source prefix [0, token) ends with still has
     a change at or after the persisted token. *)
-Theorem C08_token_safe : forall owner n h,
+Theorem C08_token_safe : forall owner n dm h,
   Forall (wf_op owner n) h ->
-  Forall (fun so => token_safe (fst so)) (exec (mkVar EqFull FsReset) (init_state n) h).
+  Forall (fun so => token_safe (fst so)) (exec (mkVar EqFull FsReset dm) (init_state n) h).
 Proof.
-  intros owner n h Hwf.
-  eapply Forall_impl; [|apply (exec_safe owner n (mkVar EqFull FsReset) eq_refl eq_refl h _ (init_good owner n) Hwf)].
+  intros owner n dm h Hwf.
+  eapply Forall_impl; [|apply (exec_safe owner n (mkVar EqFull FsReset dm) eq_refl eq_refl h _ (init_good owner n) Hwf)].
   intros so H. apply H.
 Qed.
 Print Assumptions C08_token_safe.
 
 (** the same from any state satisfying the invariant (one step, so that it composes) *)
-Theorem C08_token_safe_step : forall owner n st o st' out,
-  good owner n st -> wf_op owner n o -> step (mkVar EqFull FsReset) st o = (st', out) ->
+Theorem C08_token_safe_step : forall owner n dm st o st' out,
+  good owner n st -> wf_op owner n o -> step (mkVar EqFull FsReset dm) st o = (st', out) ->
   good owner n st'.
-Proof. intros. eapply (step_good owner n (mkVar EqFull FsReset) eq_refl); eauto. Qed.
+Proof. intros owner n dm. intros. eapply (step_good owner n (mkVar EqFull FsReset dm) eq_refl); eauto. Qed.
 Print Assumptions C08_token_safe_step.
 
 (** A tree that keeps the old token during a fullsync (as the pinned one does) is token-safe
     on every history in which no fullsync run fails. *)
-Theorem C08_token_safe_keep_partial : forall owner n h,
+Theorem C08_token_safe_keep_partial : forall owner n dm h,
   Forall (wf_op owner n) h ->
-  no_failed_full (mkVar EqFull FsKeep) (init_state n) h ->
-  Forall (fun so => token_safe (fst so)) (exec (mkVar EqFull FsKeep) (init_state n) h).
+  no_failed_full (mkVar EqFull FsKeep dm) (init_state n) h ->
+  Forall (fun so => token_safe (fst so)) (exec (mkVar EqFull FsKeep dm) (init_state n) h).
 Proof.
-  intros owner n h Hwf Hnf.
-  eapply Forall_impl; [|apply (exec_safe_keep owner n (mkVar EqFull FsKeep) eq_refl h _ (init_good owner n) Hwf Hnf)].
+  intros owner n dm h Hwf Hnf.
+  eapply Forall_impl; [|apply (exec_safe_keep owner n (mkVar EqFull FsKeep dm) eq_refl h _ (init_good owner n) Hwf Hnf)].
   intros so H. apply H.
 Qed.
 Print Assumptions C08_token_safe_keep_partial.
@@ -49,11 +50,11 @@ Print Assumptions C08_token_safe_keep_partial.
     history), a fault-free incremental run with no concurrent source writes ends OK with every
     token at the end of its feed and the sink's latest version of every source entity equal to
     the source's, for every batch size >= 1 and LatestOnly setting. *)
-Theorem C08_converge : forall owner n fs st r,
+Theorem C08_converge : forall owner n fs dm st r,
   good owner n st -> wf_op owner n (ORun r) -> r_full r = false -> r_flt r = FNone ->
-  exists st', run_job (mkVar EqFull fs) st r = (st', OOk)
+  exists st', run_job (mkVar EqFull fs dm) st r = (st', OOk)
               /\ st_srcs st' = st_srcs st /\ converged st' /\ good owner n st'.
-Proof. intros owner n fs. exact (run_inc_converge owner n (mkVar EqFull fs) eq_refl). Qed.
+Proof. intros owner n fs dm. exact (run_inc_converge owner n (mkVar EqFull fs dm) eq_refl). Qed.
 Print Assumptions C08_converge.
 
 (** Idempotence: with every token at the end of its feed, a further incremental run changes
@@ -71,12 +72,12 @@ Print Assumptions C08_idempotent.
 (** Fullsync.  From ANY sink content and ANY persisted token: a fullsync run that completes
     leaves every token at the end, the sink equal to the source on every source entity, every
     other entity of the sink deleted, and the invariant re-established. *)
-Theorem C08_fullsync_complete : forall owner n fs st r st',
+Theorem C08_fullsync_complete : forall owner n fs dm st r st',
   length (st_srcs st) = n -> length (st_tok st) = n -> owned owner (st_srcs st) ->
   wf_op owner n (ORun r) -> r_full r = true ->
-  run_job (mkVar EqFull fs) st r = (st', OOk) ->
+  run_job (mkVar EqFull fs dm) st r = (st', OOk) ->
   st_srcs st' = st_srcs st /\ converged st' /\ foreign_deleted st' /\ good owner n st'.
-Proof. intros owner n fs. exact (run_full_ok owner n (mkVar EqFull fs) eq_refl). Qed.
+Proof. intros owner n fs dm. exact (run_full_ok owner n (mkVar EqFull fs dm) eq_refl). Qed.
 Print Assumptions C08_fullsync_complete.
 
 (** The fullsync token is stored only on completion: a run that fails, is killed or dies
@@ -91,9 +92,9 @@ Print Assumptions C08_fullsync_token.
 (** refutations for the pinned tree (findings F08a, F08b) *)
 Theorem C08_converge_refuted_eqlen :
   Forall (wf_op own0 1) h_eqlen
-  /\ map snd (exec (mkVar EqLen FsReset) (init_state 1) h_eqlen)
+  /\ map snd (exec (mkVar EqLen FsReset DupStoredAndLocal) (init_state 1) h_eqlen)
      = [None; Some OOk; None; None; Some OOk; Some OOk]
-  /\ (let st := final (mkVar EqLen FsReset) (init_state 1) h_eqlen in
+  /\ (let st := final (mkVar EqLen FsReset DupStoredAndLocal) (init_state 1) h_eqlen in
       st_tok st = [Some 3]
       /\ cur (nth 0 (st_srcs st) []) 1%Z = Some (mkV 1 13 0 false)
       /\ cur (st_sink st) 1%Z = Some (mkV 1 0 0 true)).
@@ -102,9 +103,9 @@ Print Assumptions C08_converge_refuted_eqlen.
 
 Theorem C08_token_safe_refuted_fullsync :
   Forall (wf_op own0 1) h_fskeep
-  /\ map snd (exec (mkVar EqFull FsKeep) (init_state 1) h_fskeep)
+  /\ map snd (exec (mkVar EqFull FsKeep DupStoredAndLocal) (init_state 1) h_fskeep)
      = [None; None; Some OOk; Some OFailed; Some OOk]
-  /\ (let st := final (mkVar EqFull FsKeep) (init_state 1) h_fskeep in
+  /\ (let st := final (mkVar EqFull FsKeep DupStoredAndLocal) (init_state 1) h_fskeep in
       st_tok st = [Some 2]
       /\ cur (nth 0 (st_srcs st) []) 1%Z = Some (mkV 1 2 0 false)
       /\ cur (st_sink st) 1%Z = Some (mkV 1 1 0 false)
@@ -138,7 +139,7 @@ Definition own_demo (i : Z) : nat := if (i <? 10)%Z then 0 else if (i <? 100)%Z 
 
 Example C08_nonvacuous_1 :
   Forall (wf_op own_demo 2) h_demo
-  /\ map (fun so => (snd so, st_tok (fst so))) (exec (mkVar EqFull FsReset) (init_state 2) h_demo)
+  /\ map (fun so => (snd so, st_tok (fst so))) (exec (mkVar EqFull FsReset DupLocalElseStored) (init_state 2) h_demo)
      = [ (None, [None; None]); (None, [None; None]); (None, [None; None]);
          (Some ODied, [Some 2; None]); (Some OFailed, [Some 2; None]);
          (Some OFailed, [None; None]); (Some OOk, [Some 3; Some 2]); (Some OOk, [Some 3; Some 2]) ].
@@ -149,7 +150,7 @@ Proof.
   - vm_compute. reflexivity.
 Qed.
 Example C08_nonvacuous_2 :
-  let st := final (mkVar EqFull FsReset) (init_state 2) h_demo in
+  let st := final (mkVar EqFull FsReset DupLocalElseStored) (init_state 2) h_demo in
   cur (st_sink st) 1%Z = Some (mkV 1 3 0 false) /\ cur (st_sink st) 12%Z = Some (mkV 12 1 0 true)
   /\ cur (st_sink st) 100%Z = Some (mkV 100 1 1 true).
 Proof. vm_compute. auto. Qed.
